@@ -2,6 +2,6 @@
 # verify_all.sh ID...  : per worktree sequentially (A then B), worktrees in parallel
 exec </dev/null
 for p in "$@"; do
-  ( for x in A B; do [ -d /tmp/wt-$p/seeded/$x ] && /verif/tools/verify_seed.sh /tmp/wt-$p $x; done ) &
+  ( for x in A B; do [ -d /tmp/${WT_PREFIX:-wt}-$p/seeded/$x ] && /verif/tools/verify_seed.sh /tmp/${WT_PREFIX:-wt}-$p $x; done ) &
 done
 wait
